@@ -83,7 +83,7 @@ class _Canon(ast.NodeTransformer):
         if isinstance(node.func, ast.Name) and node.func.id == "dict" and not node.args and node.keywords and all(k.arg is not None for k in node.keywords):
             d = ast.Dict(keys=[ast.copy_location(ast.Constant(value=k.arg), k.value) for k in node.keywords], values=[k.value for k in node.keywords])
             return ast.copy_location(d, node)
-        return node
+        return self.visit_Call_spreads(node)
 
     def visit_BinOp(self, node: ast.BinOp):
         self.generic_visit(node)
@@ -116,13 +116,35 @@ class _Canon(ast.NodeTransformer):
             return ast.copy_location(new, node)
         return node
 
+    def visit_Call_spreads(self, node: ast.Call):
+        # f(**{"a": x, "b": y}) is f(a=x, b=y) when the keys are identifier constants
+        kws = []
+        for k in node.keywords:
+            if k.arg is None and isinstance(k.value, ast.Dict) and k.value.keys and all(isinstance(q, ast.Constant) and isinstance(q.value, str) and q.value.isidentifier() for q in k.value.keys):
+                kws.extend(ast.keyword(arg=q.value, value=v) for q, v in zip(k.value.keys, k.value.values))
+            else:
+                kws.append(k)
+        node.keywords = kws
+        # getattr(x, "name") with a constant identifier and no default is x.name
+        if isinstance(node.func, ast.Name) and node.func.id == "getattr" and len(node.args) == 2 and not node.keywords and isinstance(node.args[1], ast.Constant) \
+                and isinstance(node.args[1].value, str) and node.args[1].value.isidentifier():
+            return ast.copy_location(ast.Attribute(value=node.args[0], attr=node.args[1].value, ctx=ast.Load()), node)
+        return node
+
     def visit_Dict(self, node: ast.Dict):
         self.generic_visit(node)
         # `**{}` inside a dict display adds nothing
         keep = [(k, v) for k, v in zip(node.keys, node.values) if not (k is None and isinstance(v, ast.Dict) and not v.keys)]
-        if len(keep) != len(node.keys):
-            node.keys = [k for k, _v in keep]
-            node.values = [v for _k, v in keep]
+        # `**{"a": x, "b": y}` inside a dict display is its entries in place (same evaluation order, later keys still win)
+        flat = []
+        for k, v in keep:
+            if k is None and isinstance(v, ast.Dict) and all(q is not None for q in v.keys):
+                flat.extend(zip(v.keys, v.values))
+            else:
+                flat.append((k, v))
+        if len(flat) != len(node.keys) or any(a is not b for (a, _x), b in zip(flat, node.keys)):
+            node.keys = [k for k, _v in flat]
+            node.values = [v for _k, v in flat]
         return node
 
     def visit_UnaryOp(self, node: ast.UnaryOp):
@@ -605,6 +627,100 @@ def _unroll_table_loops(tree: ast.Module, known: set) -> None:
             if not mutated:
                 tables[nm] = st.value
 
+    def derived_table(v):
+        """`tuple(E for T in TABLE[a:b])` / `[E for T in TABLE]` over a known table with an element expression made of the loop names only"""
+        g = None
+        if isinstance(v, ast.Call) and isinstance(v.func, ast.Name) and v.func.id in ("tuple", "list") and len(v.args) == 1 and not v.keywords and isinstance(v.args[0], (ast.GeneratorExp, ast.ListComp)):
+            g = v.args[0]
+        elif isinstance(v, ast.ListComp):
+            g = v
+        if g is None or len(g.generators) != 1 or g.generators[0].ifs or g.generators[0].is_async:
+            return None
+        gen = g.generators[0]
+        it = gen.iter
+        lo = hi = None
+        if isinstance(it, ast.Subscript) and isinstance(it.slice, ast.Slice) and it.slice.step is None:
+            lo = it.slice.lower.value if isinstance(it.slice.lower, ast.Constant) else (None if it.slice.lower is None else "x")
+            hi = it.slice.upper.value if isinstance(it.slice.upper, ast.Constant) else (None if it.slice.upper is None else "x")
+            it = it.value
+        if not (isinstance(it, ast.Name) and it.id in tables) or "x" in (lo, hi):
+            return None
+        rows = tables[it.id].elts[lo:hi]
+        tg = gen.target
+        names = [tg.id] if isinstance(tg, ast.Name) else ([e.id for e in tg.elts] if isinstance(tg, ast.Tuple) and all(isinstance(e, ast.Name) for e in tg.elts) else None)
+        if names is None:
+            return None
+        out_elts = []
+        for r in rows:
+            vals = [r] if len(names) == 1 else (list(r.elts) if isinstance(r, (ast.Tuple, ast.List)) and len(r.elts) == len(names) else None)
+            if vals is None:
+                return None
+            m = dict(zip(names, vals))
+
+            class S(ast.NodeTransformer):
+                def visit_Name(self, n: ast.Name):
+                    return ast.copy_location(copy.deepcopy(m[n.id]), n) if n.id in m and isinstance(n.ctx, ast.Load) else n
+            el = S().visit(copy.deepcopy(g.elt))
+            if not _static_elem(el):
+                return None
+            out_elts.append(el)
+        return ast.copy_location(ast.Tuple(elts=out_elts, ctx=ast.Load()), v)
+    for st in tree.body:
+        if isinstance(st, ast.AnnAssign) and st.value is not None and isinstance(st.target, ast.Name):
+            st = ast.copy_location(ast.Assign(targets=[st.target], value=st.value), st)
+        if isinstance(st, ast.Assign) and len(st.targets) == 1 and isinstance(st.targets[0], ast.Name) and st.targets[0].id not in tables and st.targets[0].id not in known \
+                and stores.get(st.targets[0].id) == 1:
+            dt = derived_table(st.value)
+            if dt is not None and 0 < len(dt.elts) <= 8:
+                tables[st.targets[0].id] = dt
+
+    def comp_unroll(fn):
+        """comprehensions over a new table are displays: `{K: V for a, b in TABLE}` -> `{K1: V1, ...}`, `[E for x in TABLE]` -> `[E1, ...]`"""
+        class CU(ast.NodeTransformer):
+            def _rows(self, gens):
+                if len(gens) != 1 or gens[0].ifs or gens[0].is_async:
+                    return None
+                it_ = gens[0].iter
+                if isinstance(it_, ast.Name) and it_.id in tables:
+                    src_rows = tables[it_.id].elts
+                elif isinstance(it_, (ast.Tuple, ast.List)) and 0 < len(it_.elts) <= 8 and all(_static_elem(e) for e in it_.elts):
+                    src_rows = it_.elts  # a table that was folded into its use
+                else:
+                    return None
+                tg = gens[0].target
+                names = [tg.id] if isinstance(tg, ast.Name) else ([e.id for e in tg.elts] if isinstance(tg, ast.Tuple) and all(isinstance(e, ast.Name) for e in tg.elts) else None)
+                if names is None:
+                    return None
+                rows = []
+                for r in src_rows:
+                    vals = [r] if len(names) == 1 else (list(r.elts) if isinstance(r, (ast.Tuple, ast.List)) and len(r.elts) == len(names) else None)
+                    if vals is None:
+                        return None
+                    rows.append(dict(zip(names, vals)))
+                return rows
+
+            @staticmethod
+            def _sub(e, m):
+                class S(ast.NodeTransformer):
+                    def visit_Name(self, n: ast.Name):
+                        return ast.copy_location(copy.deepcopy(m[n.id]), n) if n.id in m and isinstance(n.ctx, ast.Load) else n
+                return S().visit(copy.deepcopy(e))
+
+            def visit_DictComp(self, n: ast.DictComp):
+                self.generic_visit(n)
+                rows = self._rows(n.generators)
+                if rows is None:
+                    return n
+                return ast.copy_location(ast.Dict(keys=[self._sub(n.key, m) for m in rows], values=[self._sub(n.value, m) for m in rows]), n)
+
+            def visit_ListComp(self, n: ast.ListComp):
+                self.generic_visit(n)
+                rows = self._rows(n.generators)
+                if rows is None:
+                    return n
+                return ast.copy_location(ast.List(elts=[self._sub(n.elt, m) for m in rows], ctx=ast.Load()), n)
+        CU().visit(fn)
+
     def next_to_loop(body):
         """`x = next(E for T in TABLE if C)` over a new table: `for T in TABLE: if C: x = E; break  else: raise StopIteration`"""
         for i, st in enumerate(list(body)):
@@ -710,6 +826,7 @@ def _unroll_table_loops(tree: ast.Module, known: set) -> None:
     for fn in ast.walk(tree):
         if isinstance(fn, (ast.FunctionDef, ast.AsyncFunctionDef)):
             fn.body = unroll(fn.body)
+            comp_unroll(fn)
             if tables:
                 Beta().visit(fn)
 
